@@ -248,9 +248,27 @@ Proof.
   - intros T b. cbn [app bytes]. rewrite N.add_0_r, app_nil_r. reflexivity.
 Qed.
 
+Lemma emitsB_subexpr l :
+  Forall (fun c => stmt_f2 c = true -> emitsB (process_card c) (stmt_names2 c) (fun T b => code_stmt2 T b c)) l ->
+  forallb stmt_f2 l = true -> forall i,
+  emitsB ((fix subexpr (l : list card) (i : N) {struct l} : M unit :=
+             match l with
+             | [] => ret tt
+             | x :: r => with_sub i (process_card x) ;; subexpr r (i + 1)
+             end) l i) (main_names2 l) (fun T b => code_main2 T b l).
+Proof.
+  induction 1 as [|x r Hx _ IH]; intros Hc i.
+  - apply emits_B, emits_nop. intros s s' E. injection E as <-. repeat split.
+  - cbn [forallb] in Hc. apply andb_true_iff in Hc. destruct Hc as [H1 H2].
+    eapply emitsB_ext.
+    + apply emitsB_seq; [apply emitsB_with_sub, Hx, H1 | apply (IH H2 (i + 1))].
+    + intros y Hy. exact Hy.
+    + intros T b. reflexivity.
+Qed.
+
 Lemma emitsB_stmt c : stmt_f2 c = true -> emitsB (process_card c) (stmt_names2 c) (fun T b => code_stmt2 T b c).
 Proof.
-  induction c; intros Hc; cbn [stmt_f2] in Hc; try discriminate Hc.
+  induction c using card_ind'; intros Hc; cbn [stmt_f2] in Hc; try discriminate Hc.
   - (* IfTrue / IfFalse *)
     destruct op; try discriminate Hc; apply andb_true_iff in Hc; destruct Hc as [He Hb]; cbn [process_card].
     + eapply emitsB_ext.
@@ -282,9 +300,15 @@ Proof.
     + intros x Hx. cbn [stmt_names2 app] in *. exact Hx.
     + intros T b. cbn [code_stmt2 app bytes]. unfold code_if_else. rewrite ?N.add_0_r. reflexivity.
   - (* Comment *)
-    apply (emits_B _ _ _ (emits_stmt (CComment s) eq_refl)).
+    apply (emits_B _ _ _ (emits_stmt (CComment _) eq_refl)).
   - (* SetGlobalVar *)
-    apply (emits_B _ _ _ (emits_stmt (CSetGlobalVar name c) Hc)).
+    apply (emits_B _ _ _ (emits_stmt (CSetGlobalVar _ _) Hc)).
+  - (* Composite *)
+    cbn [process_card]. eapply emitsB_ext.
+    + apply emitsB_seq; [apply emits_B, emits_nop, keep4_card_label|].
+      apply emitsB_subexpr; [eassumption | exact Hc].
+    + intros x Hx. exact Hx.
+    + intros T b. rewrite code_stmt2_composite. cbn [app bytes]. rewrite N.add_0_r. reflexivity.
 Qed.
 
 Lemma emitsB_cards cards : forallb stmt_f2 cards = true -> forall ic,
